@@ -1,6 +1,7 @@
 ------------------------- MODULE AsyncLatestTrace -------------------------
 (* Trace validation of the real latest node against AsyncLatest.           *)
-(* RunNotify and CbWait are silent (not observable without source hooks).  *)
+(* RunNotify and CbWait are silent (not observable without source hooks);   *)
+(* so is CbRelease when cb does not own a reference (nothing is released).  *)
 EXTENDS AsyncLatest, Json, IOUtils, TLCExt
 
 Traces == JsonDeserialize(IOEnv.TRACE_FILE)
@@ -28,9 +29,11 @@ Event(ev) ==
 TraceNext ==
     \/ /\ l <= Len(T) /\ Event(T[l])
        /\ l' = l + 1 /\ TLCSet(tid, Max(TLCGet(tid), l + 1)) /\ UNCHANGED tid
-    \/ /\ l <= Len(T) /\ (RunNotify \/ CbWait) /\ UNCHANGED <<tid, l>>
+       \* CbSafe (C04) is reported per event instead of stopping the run
+       /\ ((CbSafe /\ ~CbSafe') => PrintT(<<"UNSAFE", Traces[tid].id, l>>))
+    \/ /\ l <= Len(T) /\ (RunNotify \/ CbWait \/ (~CbOwns /\ CbRelease)) /\ UNCHANGED <<tid, l>>
 
 TraceSpec == TraceInit /\ [][TraceNext]_tvars
-TraceInv == TypeOK /\ Subsequence /\ NewestDelivered /\ CbSafe /\ RcBalance
+TraceInv == TypeOK /\ Subsequence /\ NewestDelivered /\ RcBalance
 Report == \A i \in 1 .. Len(Traces) : PrintT(<<"REACHED", Traces[i].id, TLCGet(i), Len(Traces[i].ev) + 1>>)
 =============================================================================
